@@ -303,7 +303,14 @@ func (s *storage) nextPack() error {
 	if err := s.openForWrite(n); err != nil {
 		return err
 	}
-	return s.openForRead(n)
+	if err := s.openForRead(n); err != nil {
+		// Keep s.writer and s.fds in step: with a writer for pack n but
+		// no read handle for it, blobs appended to pack n would be
+		// indexed as belonging to pack n-1.
+		s.closePack()
+		return err
+	}
+	return nil
 }
 
 // openAllPacks opens read-only each pack file in s.root, populating s.fds.
